@@ -38,15 +38,20 @@ ASSUMPTIONS = [
 ]
 
 # printers of the round trip (short names: TLC wraps long VERDICT tuples over several lines)
-PRINTERS = {"wp": "string(with_param=True)", "str": "str()", "s": "string()", "sys": "system.string()"}
-QUICK = ["keys_q", "coefs_q", "params_q", "system_q", "faults_q", "faults2_q"]
-THOROUGH = ["keys_t", "coefs_t", "params_t", "system_t", "system2_t", "faults_t", "faults2_q"]
+PRINTERS = {"str": "str()", "sdef": "string()", "ydef": "system.string()"}
+for _wp in (0, 1):
+    for _wn in (0, 1):
+        PRINTERS["s%d%d" % (_wp, _wn)] = "string(with_param=%s, with_name=%s)" % (bool(_wp), bool(_wn))
+        PRINTERS["y%d%d" % (_wp, _wn)] = "system.string(with_param=%s, with_name=%s)" % (bool(_wp), bool(_wn))
+QUICK = ["keys_q", "coefs_q", "params_q", "system_q", "system3_q", "faults_q", "faults2_q"]
+THOROUGH = ["keys_t", "coefs_t", "params_t", "system_t", "system2_t", "system_q", "system3_q", "faults_t", "faults2_q"]
 NEED = {
     "keys": ["-br", "-bareparen", "-inact", "-rep"],
     "coefs": ["-dec", "-star", "-rep", "-inact"],
     "params": ["-param", "-kw", "-eq"],
     "system": ["-sys", "-param"],
     "system2": ["-sys", "-inact", "-kw"],
+    "system3": ["-sys", "-kw", "-eq"],
     "faults": ["fault-unknownkey", "fault-missingarrow", "fault-wrongarrow", "ok-"],
     "faults2": ["fault-unknownkey", "-bareparen"],
 }
@@ -65,10 +70,10 @@ def _line_diff(o, e):
     return bad
 
 
-def _rt_line_diff(o, e, withparam):
+def _rt_line_diff(o, e):
     bad = [f for f in ("reac", "prod") if _pairs(o[f]) != _pairs(e[f])]
     bad += [f for f in ("ireac", "iprod") if o[f]]
-    if withparam and e["param"]["some"]:
+    if e["param"]["some"]:
         if not o["param"]["some"] or o["param"]["v"] not in e["param"]["allowed"]:
             bad.append("param")
     elif o["param"]["some"]:
@@ -118,25 +123,29 @@ def judge_case(case, obs):
     if bad or len(obs["copy_lines"]) != len(e["lines"]):
         return ("copy", sorted(set(bad)) or ["number-of-reactions"], {"lines": e["lines"]})
     if e["printable"]:
-        if not obs["rts"]:
+        exp_by_opt = {(x["wp"], x["wn"]): x for x in e["rt"]}
+        seen = set((rt["wp"], rt["wn"]) for rt in obs["rts"])
+        if set(exp_by_opt) - seen:
             return ("roundtrip", ["not-observed"], None)
         for rt in obs["rts"]:
             what = "roundtrip-" + PRINTERS.get(rt["kind"], rt["kind"])
+            x = exp_by_opt.get((rt["wp"], rt["wn"]))
+            if x is None:
+                return (what, ["option"], None)
             if rt["raised"]:
-                return (what, ["printed-text-rejected"], {"rt": e["rt"]})
+                return (what, ["printed-text-rejected"], {"rt": x})
             retried = rt.get("retried")
-            if len(rt["lines"]) != len(e["rt"]):
-                return (what, ["number-of-reactions"], {"rt": e["rt"]})
+            if len(rt["lines"]) != len(x["lines"]):
+                return (what, ["number-of-reactions"], {"rt": x})
             bad = []
-            for o, x in zip(rt["lines"], e["rt"]):
-                bad += _rt_line_diff(o, x, rt["withparam"])
+            for o, xl in zip(rt["lines"], x["lines"]):
+                bad += _rt_line_diff(o, xl)
             if bad:
-                return (what, sorted(set(bad)), {"rt": e["rt"]})
+                return (what, sorted(set(bad)), {"rt": x})
             if retried:
-                return (what, ["printed-text-rejected"], {"rt": e["rt"]})
-            exact = all(x["exact"] if rt["withparam"] else not x["param"]["some"] for x in e["rt"])
-            if exact and not rt["eq"]:
-                return (what, ["not-equal-to-original"], {"rt": e["rt"]})
+                return (what, ["printed-text-rejected"], {"rt": x})
+            if all(xl["exact"] for xl in x["lines"]) and not rt["eq"]:
+                return (what, ["not-equal-to-original"], {"rt": x})
     return None
 
 
@@ -151,7 +160,8 @@ def replay_case(case):
     i, e = case["in"], case["exp"]
     allowed = list(i["allowed"]["keys"]) if i["allowed"]["given"] else None
     nochecks = bool(e["raise"] or any(e["nochecks"]) or e["duplicates"])
-    obs = rc.observe(i["doc"], i["klass"], i["system"], allowed, nochecks, e["printable"])
+    opts = [(x["wp"], x["wn"], x["duplicates"]) for x in e["rt"]] if e["printable"] else None
+    obs = rc.observe(i["doc"], i["klass"], i["system"], allowed, nochecks, opts)
     return obs, judge_case(case, obs)
 
 
@@ -176,14 +186,14 @@ def run_trace(events):
     doc, klass, allowed = rc.events_doc(events)
     facts = rc.line_facts(events)
     system = len(doc) > 1
-    obs = rc.observe(doc, klass, system, allowed, True, facts["printable"])
+    obs = rc.observe(doc, klass, system, allowed, True, facts["print_opts"] if facts["printable"] else None)
     if obs.get("unencodable"):
         return None, obs, facts
     tr = list(events)
     if facts["printable"]:
         tr += [{"k": "print"}, {"k": "parse"}]
     o = {k: obs[k] for k in ("doc", "klass", "raised", "lines", "copy_eq", "copy_lines")}
-    o["rts"] = [{k: rt[k] for k in ("kind", "withparam", "raised", "lines", "eq")} for rt in obs["rts"]]
+    o["rts"] = [{k: rt[k] for k in ("kind", "wp", "wn", "raised", "lines", "eq")} for rt in obs["rts"]]
     tr.append({"k": "result", "obs": o})
     return tr, obs, facts
 
